@@ -122,9 +122,13 @@ def generate(rng, tier, idx):
     # the IGNORE entries that lie below some directory are kept in a registered sub-Manifest of that directory instead
     # of the top-level Manifest
     sub_ign = rng.randrange(100) if rng.random() < 0.4 else None
+    # ... and that sub-Manifest FILE lives on another filesystem (bind mount, link to a file elsewhere) while its
+    # directory does not
+    sub_manifest_foreign = sub_ign is not None and rng.random() < 0.3
     return {'prop': ID, 'order_key': '%016x' % rng.getrandbits(64), 'tree': tree, 'mounts': mounts,
             'ignores': ignores, 'ops': ops, 'unreg': unreg, 'file_entry_for_ext': bool(file_entry_for_ext),
-            'file_entry_in_hidden_ext': bool(file_entry_in_hidden_ext), 'sub_ign': sub_ign}
+            'file_entry_in_hidden_ext': bool(file_entry_in_hidden_ext), 'sub_ign': sub_ign,
+            'sub_manifest_foreign': bool(sub_manifest_foreign)}
 
 
 def dev_of(mounts, base, realpath, default):
@@ -232,6 +236,9 @@ def execute(sc):
                               'sums': G.digests(sub_text.encode(), ['SHA256'])})
                 manifest_text = G.dump(tents)
                 counters['ignores_kept_in_a_sub_manifest'] = 1
+                if sc.get('sub_manifest_foreign'):
+                    mounts['tree/' + subm + '/Manifest'] = 2004
+                    counters['sub_manifest_file_on_another_device'] = 1
         top = os.path.join(root, 'Manifest')
         man_dev = dev_of(mounts, base, top, default_dev)
         nontrivial = bool(g_all['links'] or mounts)
@@ -257,6 +264,10 @@ def execute(sc):
             if kind in ('unregistered', 'unregistered-sub'):
                 # the scan inspects directories only; it neither verifies nor records files
                 foreign = [v for v in foreign if v == '' or v == subw or v in g['dirs']]
+            if subm is not None and sc.get('sub_manifest_foreign') and \
+                    kind in ('verify', 'verify-kg', 'cli-verify', 'cli-verify-2', 'update', 'cli-update', 'cli-update-2'):
+                # the walk meets the registered sub-Manifest as a file of its directory
+                foreign = foreign + [subm + '/Manifest']
             has_loop = bool(g['loops'])
             hidden_foreign = None
             # (re)write the Manifest: earlier update ops may have rewritten it
